@@ -17,6 +17,10 @@ ALPHA = [u' ', u'\t', u'\n', u'\r', u'a', u'<', u'&']
 EXTRA = [u'>', u']', u'é', u'\U0001F600', u'"', u"'", u' ', u' ', u'b', u'�', u'\x85']
 
 
+def short(x):
+    return x if len(x) < 120 else u'%s... (%d characters)' % (x[:40], len(x))
+
+
 def dump_nodes(nodes):
     out = []
     for n in nodes:
@@ -62,6 +66,15 @@ def gen_strings(chk):
     for n in range(0, maxlen + 1):
         for t in itertools.product(ALPHA, repeat=n):
             yield u''.join(t), 'exhaustive'
+    # size extremes (every run): runs of blanks around the powers of two where a count could be clamped or wrapped, long
+    # runs of the other white-space characters, a long mixed string
+    for n in (127, 128, 255, 256, 257, 1000, 32767, 32768, 65535, 65536, 65537, 70001):
+        yield u' ' * n, 'extreme'
+        yield u'a' + u' ' * n + u'b', 'extreme'
+    for n in (300, 5000):
+        yield u'\t' * n, 'extreme'
+        yield u'\n' * n, 'extreme'
+        yield (u'ab \t\n  c') * n, 'extreme'
     nrand = 20000 if chk.tier == 'thorough' else 3000
     alpha = ALPHA * 3 + EXTRA
     for _ in range(nrand):
@@ -108,15 +121,15 @@ def run(chk, replay=None):
         chk.corr()
         if impl.strip() != ans.strip():
             chk.corr_diff({'s': enc_str(s)}, impl, ans, 'nodes appended by addTextToElement')
-        chk.case(s, nontrivial=any(c in s for c in u' \t\n'), sample={'s': s, 'nodes': impl} if kind == 'random' else None)
+        chk.case(s if len(s) < 200 else (len(s), hash(s)), nontrivial=any(c in s for c in u' \t\n'), sample={'s': s, 'nodes': impl} if kind == 'random' else None)
         chk.count(kind)
         for c in set(s) & set(u' \t\n\r'):
             chk.count('has_' + {u' ': 'SP', u'\t': 'TAB', u'\n': 'LF', u'\r': 'CR'}[c])
         got = teletype.extractText(p)
         if got != s:
-            chk.fail('roundtrip-direct', {'s': enc_str(s)}, 'extractText gave %r for %r' % (got, s))
+            chk.fail('roundtrip-direct', {'s': enc_str(s)}, 'extractText gave %r for %r' % (short(got), short(s)))
         if not clean_nodes(new):
-            chk.fail('raw-whitespace', {'s': enc_str(s)}, 'inserted nodes %s' % impl)
+            chk.fail('raw-whitespace', {'s': enc_str(s)}, 'inserted nodes %s' % short(impl))
     # ---- appended to an element that already has content
     pre = [u'x', u'x ', u' ', u'a\tb', u'  ', u'q\n']
     for i, (s, kind) in enumerate(cases):
@@ -181,5 +194,5 @@ def run(chk, replay=None):
             chk.count('saveload')
             got = teletype.extractText(p)
             if got != s:
-                chk.fail('roundtrip-saveload', {'s': enc_str(s), 'mode': 'saveload'}, 'after save+load extractText gave %r for %r' % (got, s))
+                chk.fail('roundtrip-saveload', {'s': enc_str(s), 'mode': 'saveload'}, 'after save+load extractText gave %r for %r' % (short(got), short(s)))
     return chk.finish()
